@@ -46,16 +46,11 @@ Lemma av_d_fold_nodup (dflt g : addr -> meta) ins (l : list addr) : forall v, No
   NoDup (map av_addr (fold_left (fun v a => av_upsert_d v a (dflt a) (g a) ins) l v)).
 Proof. induction l as [|a r IH]; intros v Hnd; [exact Hnd|]. cbn [fold_left]. apply IH. apply av_upsert_d_nodup. exact Hnd. Qed.
 
-(* UpdateAccountsMetadata / UpsertAccounts as importLog calls them for SET_METADATA on an account *)
+(* UpsertAccounts as importLog calls it for SET_METADATA on an account *)
 Lemma simp_acc_set_av h d accs hist a dm md :
   NoDup (map a_addr accs) ->
   map av (fst (simp_acc_set h d (accs, hist) a dm md)) = av_upsert_d (map av accs) a dm md d.
-Proof.
-  intros Hnd. unfold simp_acc_set. destruct dm as [|kv dm'].
-  - cbn [fst]. unfold av_upsert_d. rewrite find_account_has.
-    destruct (find_account accs a) eqn:F; rewrite (imp_acc_set_av _ _ _ _ _ _ Hnd); unfold av_upsert; rewrite find_account_has, F; reflexivity.
-  - rewrite (upsert_account_d_av _ _ _ _ _ _ _ _ _ _ Hnd). reflexivity.
-Qed.
+Proof. intros Hnd. unfold simp_acc_set. rewrite (upsert_account_d_av _ _ _ _ _ _ _ _ _ _ Hnd). reflexivity. Qed.
 
 Section SProofs.
   Variable re_valid : str -> bool.
@@ -254,13 +249,13 @@ Section SProofs.
       exists c1. split; [|exact S1]. cbn [simp_payload]. rewrite Ep. reflexivity.
     - cbn [run_input_d]. intros X; inversion X; subst; clear X. cbn [simp_payload]. rewrite (resolve_ext ss c v Es), Hr.
       eexists. split; [reflexivity|]. pose proof S as [Hv Ht Hh Hl Hm Ha Hav Hnd].
-      destruct (upsert_account_d (f_acc_hist f) now (s_accounts (ss_base ss), s_ahist (ss_base ss)) a (defaults sc a) md None None None) as [sa sh] eqn:Fs.
+      destruct (upsert_account_d (f_acc_hist f) now (s_accounts (ss_base ss), s_ahist (ss_base ss)) a (defaults sc a) md (Some now) None None) as [sa sh] eqn:Fs.
       destruct (simp_acc_set (f_acc_hist f) now (s_accounts (ss_base c), s_ahist (ss_base c)) a (defaults sc a) md) as [ca ch] eqn:Fc.
       apply sim_accounts_change; [exact S | |].
       + pose proof (simp_acc_set_av (f_acc_hist f) now _ (s_ahist (ss_base c)) a (defaults sc a) md (nodup_copy _ _ Hav Hnd)) as X.
-        pose proof (upsert_account_d_av (f_acc_hist f) now _ (s_ahist (ss_base ss)) a (defaults sc a) md None None None Hnd) as Y.
+        pose proof (upsert_account_d_av (f_acc_hist f) now _ (s_ahist (ss_base ss)) a (defaults sc a) md (Some now) None None Hnd) as Y.
         rewrite Fc in X. rewrite Fs in Y. cbn [fst opt_default] in X, Y. rewrite X, Y, Hav. reflexivity.
-      + pose proof (upsert_account_d_av (f_acc_hist f) now _ (s_ahist (ss_base ss)) a (defaults sc a) md None None None Hnd) as Y.
+      + pose proof (upsert_account_d_av (f_acc_hist f) now _ (s_ahist (ss_base ss)) a (defaults sc a) md (Some now) None None Hnd) as Y.
         rewrite Fs in Y. cbn [fst] in Y. rewrite <- av_addrs, Y. apply av_upsert_d_nodup. rewrite av_addrs. exact Hnd.
     - cbn [run_input_d]. intros R. pose proof (done_payload_shape _ _ _ _ _ R) as ->.
       destruct (run_input_sim f false false now nowi _ _ _ _ _ HI S (fun D => match Bool.diff_false_true D with end) R) as (c1 & Ep & S1).
